@@ -33,6 +33,16 @@ Theorem C11_constant_of_shape attrs shp t :
   cos_spec attrs shp = SMust [Some t] -> sh t = map Z.to_nat (pl shp) /\ exists v, pl t = repeat v (Tensor.numel (sh t)).
 Proof. exact (cos_spec_constant attrs shp t). Qed.
 
+(* Constant: for EVERY payload -- zero scalars, empty or all-zero lists, any bit pattern -- S demands the
+   scalar / the vector / the tensor that the attribute holds, with the element type of the attribute form *)
+Theorem C11_constant_forms v b vs bs t :
+  constant_spec [AInt "value_int" v] = SMust [Some {| dt := Int64; sh := []; pl := [v] |}] /\
+  constant_spec [AFloat "value_float" b] = SMust [Some {| dt := Float32; sh := []; pl := [b] |}] /\
+  constant_spec [AInts "value_ints" vs] = SMust [Some {| dt := Int64; sh := [List.length vs]; pl := vs |}] /\
+  constant_spec [AFloats "value_floats" bs] = SMust [Some {| dt := Float32; sh := [List.length bs]; pl := bs |}] /\
+  constant_spec [ATensor "value" t] = SMust [Some t].
+Proof. repeat split. Qed.
+
 (* non-vacuity and the rounding rules, computed with Flocq: 2^24+1 -> float32 ties to even; 1e-45 double
    -> float32 rounds to the smallest subnormal; uint64 above 2^63 from a float64; Constant forms *)
 Example C11_nonvacuous :
